@@ -35,6 +35,19 @@ CASES = [
          setup="from chempy.properties.water_density_tanaka_2001 import water_density as f",
          vars={"T": (220, 375)}, plain="f(T)", units="f(T*U.Kelvin, units=U)", unit="U.kilogram/U.meter**3",
          warn=("T", 273.15, 313.15)),
+    # optional arguments: the reference temperature (any value incl. 0: Celsius input) and the five parameters of Thiesen's equation
+    dict(name="water_density_T0_a", targets=["chempy.properties.water_density_tanaka_2001.water_density"],
+         setup="from chempy.properties.water_density_tanaka_2001 import water_density as f",
+         vars={"t": (0, 40), "T0": (-300, 300), "p0": (-10, 10), "p1": POS, "p2": POS, "p3": POS, "p4": POS},
+         plain="(f(t + T0, T0, warn=False), f(t + T0, T0, a=(p0, p1, p2, p3, p4), warn=False), f(a=(p0, p1, p2, p3, p4), just_return_a=True)[2], "
+               "f(t, 0, warn=False), f(t + Const(273.15), None, warn=False))",
+         units="(f((t + T0)*U.Kelvin, T0*U.Kelvin, units=U, warn=False), "
+               "f((t + T0)*U.Kelvin, T0*U.Kelvin, a=(p0*U.Kelvin, p1*U.Kelvin, p2*U.Kelvin**2, p3*U.Kelvin, p4*U.kilogram/U.meter**3), units=U, warn=False), "
+               "f(a=(p0, p1, p2*U.Kelvin**2, p3, p4), units=U, just_return_a=True)[2], f(t*U.Kelvin, 0*U.Kelvin, units=U, warn=False), "
+               "f((t + Const(273.15))*U.Kelvin, None, units=U, warn=False))",
+         unit="(U.kilogram/U.meter**3, U.kilogram/U.meter**3, U.Kelvin**2, U.kilogram/U.meter**3, U.kilogram/U.meter**3)",
+         formula="(f(t + Const(273.15), warn=False), p4*(1 - ((t + p0)**2*(t + p1))/(p2*(t + p3))), p2, f(t + Const(273.15), warn=False), "
+                 "Const(999.974950)*(1 - ((t - Const(3.983035))**2*(t + Const(301.797)))/(Const(522528.9)*(t + Const(69.34881)))))"),
     dict(name="water_viscosity", targets=["chempy.properties.water_viscosity_korson_1969.water_viscosity"],
          setup="from chempy.properties.water_viscosity_korson_1969 import water_viscosity as f",
          vars={"T": (220, 447)}, plain="f(T)", units="f(T*U.kelvin, units=U)", unit="U.centipoise",
@@ -52,6 +65,20 @@ CASES = [
          vars={"T": (274, 373), "e0": (-3, 3), "e1": (-3, 3)}, plain="f(T, err_mult=(e0, e1))",
          units="f(T*U.Kelvin, units=U, err_mult=(e0, e1))", unit="U.meter**2/U.second",
          formula="(Const(1.635e-8) + e0*Const(2.242e-11))*((T/(Const(215.05) + e1*Const(1.2))) - 1)**2.063"),
+    # defaults (T = 298.15 K) and a sequence: a perturbed evaluation must leave nothing behind for the next plain one
+    dict(name="defaults_and_sequence", targets=["chempy.properties.water_density_tanaka_2001.water_density",
+                                                "chempy.properties.water_viscosity_korson_1969.water_viscosity",
+                                                "chempy.properties.water_diffusivity_holz_2000.water_self_diffusion_coefficient"],
+         setup="from chempy.properties.water_density_tanaka_2001 import water_density as f_rho\n"
+               "from chempy.properties.water_viscosity_korson_1969 import water_viscosity as f_eta\n"
+               "from chempy.properties.water_diffusivity_holz_2000 import water_self_diffusion_coefficient as f_D",
+         vars={"T": (274, 373), "e0": (-3, 3), "e1": (-3, 3)},
+         plain="(f_rho(Const(298.15)), f_eta(Const(298.15)), f_D(Const(298.15)), (f_D(T, err_mult=(e0, e1)), f_D(T))[1], (f_D(T, err_mult=(e0, e1)), f_D(T, err_mult=(e1, e0)))[1])",
+         units="(f_rho(units=U), f_eta(units=U), f_D(units=U), (f_D(T*U.Kelvin, units=U, err_mult=(e0, e1)), f_D(T*U.Kelvin, units=U))[1], "
+               "(f_D(T*U.Kelvin, units=U, err_mult=(e0, e1)), f_D(T*U.Kelvin, units=U, err_mult=(e1, e0)))[1])",
+         unit="(U.kilogram/U.meter**3, U.centipoise, U.meter**2/U.second, U.meter**2/U.second, U.meter**2/U.second)",
+         formula="(f_rho(Const(298.15)), f_eta(Const(298.15)), f_D(Const(298.15)), Const(1.635e-8)*((T/Const(215.05)) - 1)**2.063, "  # 1-3: units mode
+                 "(Const(1.635e-8) + e1*Const(2.242e-11))*((T/(Const(215.05) + e0*Const(1.2))) - 1)**2.063)"),
     dict(name="water_permittivity", targets=["chempy.properties.water_permittivity_bradley_pitzer_1979.water_permittivity"],
          setup="from chempy.properties.water_permittivity_bradley_pitzer_1979 import water_permittivity as f",
          vars={"T": (220, 745), "P": (Fraction(1, 2), 1900)}, plain="f(T, P, backend=be)",
